@@ -2402,7 +2402,7 @@ func callHevcSPSAndSEI(in []byte, arg int) (string, func() string) {
 	}
 	msgs, err := hevc.ParseSEINalu(rest, sps)
 	sink = useMsgs(msgs)
-	return errClass(err), nil
+	return errClass(err), func() string { return fmt.Sprint(len(msgs)) }
 }
 
 func callAvcDecConfRecAndSlice(in []byte, arg int) (string, func() string) {
@@ -2448,7 +2448,12 @@ func callHevcDecConfRecAndSlice(in []byte, arg int) (string, func() string) {
 	}
 	h, err := hevc.ParseSliceHeader(rest, spsMap, ppsMap)
 	sink = h
-	return errClass(err), nil
+	return errClass(err), func() string {
+		if err != nil {
+			return ""
+		}
+		return hevcSliceString(h)
+	}
 }
 
 func init() {
